@@ -206,6 +206,26 @@ def roleAssign (D p : Int) (r : RoleRes) : RoleAssign → RoleRes
 def roleDuration (srcs : List RoleAssign) (D p : Int) : RoleRes :=
   srcs.foldl (roleAssign D p) .unset
 
+/-! ### sessions: a second-factor step-up keeps the login moment -/
+
+/-- the claims of a keymaster session cookie that matter here -/
+structure Session where
+  iat : Int
+  exp : Int
+  level : Nat
+deriving DecidableEq, Repr
+
+/-- `updateAuthJWTWithNewAuthLevel` (behind every 2FA handler's `updateAuthCookieAuthlevel`): the
+parsed claims are signed again with only `AuthType` replaced -/
+def stepUp (s : Session) (lvl : Nat) : Session := { s with level := lvl }
+
+/-- any number of step-ups -/
+def stepUps (s : Session) (lvls : List Nat) : Session := lvls.foldl stepUp s
+
+/-- what a step-up that mints a *new* token at clock `now` for the remaining lifetime would do
+(not what the source does; kept for the counterexample) -/
+def stepUpRemint (now : Int) (s : Session) (lvl : Nat) : Session := { iat := now, exp := s.exp, level := lvl }
+
 /-! ### the property's predicates (what `judge` evaluates) -/
 
 def reqOK (req : Req) (ta vb : Int) : Bool :=
